@@ -211,3 +211,9 @@ def same_tracers(ctx):
             okm = bool(elem) and bool(cap) and pr == proj and any('r' in [re.sub(r'^_ref__', '', x) for x in r[2]] for r in cap)
             detail = 'element%s * r' % ('.1' if proj else '')
         ctx.check(okm, key, 'traps = points * r', '%s does not multiply every tracing point by the given scalar' % key, detail, F.fn(key).where())
+
+
+@rule('C17', 'witness-private', tier='thorough')
+def witness_private(ctx):
+    from .. import witness
+    witness.check(ctx, ['MasterKeyRepresentationIsPrivate'])
